@@ -40,7 +40,8 @@ def cow(chk, P):
              "directly or through another such member: otherwise a write through the result is shared with the other copies")
     ms = [f for f in P.methods_of(COW) if f.kind == "method"]
     chk.require(len(ms) > 15, "CloneOnWritePtr methods not found (%d)" % len(ms))
-    cands = [f for f in ms if not f.d.get("const") and (_mutable_ret(f) or f.name.endswith("::release"))]
+    # static helpers (cloneOrNull) return fresh clones, not the managed object
+    cands = [f for f in ms if not f.d.get("const") and not f.d.get("static") and (_mutable_ret(f) or f.name.endswith("::release"))]
     verified = set()
     changed = True
     while changed:
@@ -62,11 +63,11 @@ def cow(chk, P):
     chk.rule("EFFECT", "detach() clones exactly when the object is shared (use_count() > 1), giving up one share and starting a fresh count of 1; copy construction/assignment "
              "share and increment the count (never clone); ClonePtr copy operations clone")
     d = P.fn(COW + "::detach")
-    gb = guard_blocks(d, lambda c: c[0] == "op" and c[1] == ">" and bool(sx_find(c[2], lambda y: y[0] == "call" and y[1].endswith("::use_count"))) and _is_lit(c[3], "1"), 0)
+    gb = guard_blocks(d, lambda c: c[0] in ("op", "opc") and c[1] == ">" and bool(sx_find(c[2], lambda y: y[0] in ("call", "dcall") and str(y[1]).endswith("use_count"))) and _is_lit(c[3], "1"), 0)
     chk.judge(len(gb) == 1, "EFFECT", "detach:guard-use_count>1", d.loc, "detach acts iff use_count() > 1")
     for g in gb:
         evs = d.blocks[g]["ev"]
-        has_decr = any(is_call(e, COW + "::decr") for e in evs)
+        has_decr = any(e["k"] == "call" and str(e.get("fn", "")).endswith("decr") for e in evs)
         clone = [e for e in evs if bool(ev_write(e)) and field_of(ev_write(e)[0]) == COW + "::p" and sx_find(ev_write(e)[2], lambda y: y[0] in ("dcall", "call") and str(y[1]).endswith("clone"))]
         cnt = [e for e in evs if bool(ev_write(e)) and field_of(ev_write(e)[0]) == COW + "::count" and sx_find(ev_write(e)[2], lambda y: y[0] == "new") and
                sx_find(ev_write(e)[2], lambda y: y[0] == "lit" and y[1] == "1")]
@@ -76,13 +77,13 @@ def cow(chk, P):
     sh = [f for f in P.fns_named(COW + "::shareWith")]
     chk.require(bool(sh), "CloneOnWritePtr::shareWith not found")
     for f in sh:
-        chk.judge(any(is_call(e, COW + "::incr") for _, _, e in f.events()) and not any(str(e.get("fn", "")).endswith("clone") for _, _, e in f.calls()), "EFFECT", "shareWith:incr-no-clone", f.loc,
+        chk.judge(any(e["k"] == "call" and str(e.get("fn", "")).endswith("incr") for _, _, e in f.events()) and not any(str(e.get("fn", "")).endswith("clone") for _, _, e in f.calls()), "EFFECT", "shareWith:incr-no-clone", f.loc,
                   "sharing increments the count and does not clone")
     for f in P.methods_of(COW):
         if f.kind in ("copyctor", "copyassign"):
             chk.judge(any(str(e.get("fn", "")).endswith("shareWith") for _, _, e in f.calls()), "EFFECT", f.kind + ":shares", f.loc, "copy shares the object (copy-on-write)")
             if f.kind == "copyassign":
-                p = f.path_exists(None, lambda q: str(q.get("fn", "")).endswith("shareWith") and q["k"] == "call", lambda q: q["k"] == "call" and q.get("fn") == COW + "::reset")
+                p = f.path_exists(None, lambda q: str(q.get("fn", "")).endswith("shareWith") and q["k"] == "call", lambda q: q["k"] == "call" and str(q.get("fn", "")).endswith("reset"))
                 chk.judge(p is None, "EFFECT", "copyassign:reset-before-share", f.loc, "the old share is released before sharing the new object", p)
 
 
@@ -127,13 +128,14 @@ def noflow(chk, P):
                 # whole source passed to a base/member initialiser: only to the own helper's copy constructor
                 if from_src(i.get("init")) and not sx_find(i.get("init"), lambda y: y[0] in ("mem", "dmem")):
                     tgt = i.get("base") or i.get("field") or ""
-                    if "Helper" not in tgt and "delegating" not in i:
+                    if "Helper" not in tgt and not tgt.endswith("::Super") and "delegating" not in i:
                         bad.append("source passed to initialiser of " + tgt)
             for _, _, e in f.calls():
                 if any(from_src(a) and not sx_find(a, lambda y: y[0] in ("mem", "dmem")) for a in call_args(e)):
                     n = str(e.get("fn", ""))
-                    if not (n.endswith("operator=") and ("Helper" in n or n.startswith(cls))):
-                        bad.append("source passed to " + n)
+                    if n.endswith("operator=") or n in ("!=", "==") or e.get("op") in ("==", "!="):
+                        continue   # base-class copy assignment (checked as its own NOFLOW instance) / self-assignment test on addresses
+                    bad.append("source passed to " + n)
             # method calls on the source (src.get(), src.release() ...)
             for _, _, e in f.events(lambda e: e["k"] == "call"):
                 o = call_obj(e)
